@@ -1,4 +1,5 @@
 import RbModel.Hangul
+import RbModel.HangulBuf
 import RbModel.Gen.Hangul
 import RbModel.Drv.Util
 
@@ -89,6 +90,15 @@ def handle (ts : List String) : Option String :=
       match preprocess c text with
       | none => pure "panic"
       | some r => pure (" ".intercalate ("ok" :: r.map fun g => s!"{g.cp}:{g.cl}:{g.tag}"))
+  | ["prem", level, nodc, spec, text] => do
+      -- the same routine on the real buffer model, masks (glyph flags) included: HangulBuf.lean
+      let level ← level.toNat?
+      let items ← parseSpec spec
+      let text ← parseText text
+      let c : Cfg := { has := specHas items, zeroW := specZero items, noDotted := nodc == "1", level := level }
+      match RbModel.HangulBuf.preprocess c (text.map fun g => (g.cp, g.cl)) with
+      | .error _ => pure "panic"
+      | .ok r => pure (" ".intercalate ("ok" :: r.map fun (cp, cl, tag, mask) => s!"{cp}:{cl}:{tag}:{mask}"))
   | ["plan", env, dir, _script, cat] => do
       -- env: letters of the tables the font has besides the basic ones (S GSUB, M morx, K kern, P GPOS, D GDEF)
       let letters := if env == "-" then [] else env.toList
